@@ -29,6 +29,31 @@ CHECKS = {
  "C18": ("exploration", "5 C18", "storage-log grammar: over the event log of a full drain every key passed to Get or returned by Next must lie in the region of one pinning conjunct (+1 key beyond its end), point reads only for =/IN, no storage call for clauses unsatisfiable on their face; all canonical shapes enumerated",
          "Canonical shapes with the key on the left, literals from a 6-literal pool, one dense store.",
          "runtime monitoring: event-log grammar over exhaustively enumerated key-pinning shapes"),
+
+ "C04": ("exploration", "5 C04", "differential runtime monitor: every generated expression is parsed twice, one copy rewritten by ExpressionOptimizer.Optimize(), and both evaluated with Execute and ExecuteBatch on a store; kind+value must agree wherever the original evaluates; second witness: the full query through BuildPlan vs the reference evaluator. Exhaustive depth-1 and one-sided depth-2 numeric trees, sampled comparisons / Boolean constants / re-association chains / constant calls",
+         "Floats are dyadic so equality is exact; -0 and +0 are the same value; str() of floats not generated (rendering undocumented).",
+         "runtime monitoring: before/after-rewrite differential on the real evaluator"),
+ "C05": ("exploration", "5 C05", "differential runtime monitor over {aliased text, alias-expanded text} x {cache on, off} x {row, batch}: all eight outcomes must agree; every row as wide as FieldNameList(); columns of core-language fields equal the reference evaluator on that row's pair; gates on cache hits and on rejected rows between accepted ones",
+         "A text the checker rejects is not judged (alias resolution positions); ORDER BY/GROUP BY keep alias names in the expanded text.",
+         "runtime monitoring: eight-way configuration differential plus reference evaluator"),
+ "C06": ("exploration", "5 C06", "process-level crash monitor: recover() around plan/explain/drain/render in worker processes whose death (fatal stack overflow) the coordinator attributes to the journalled case; storage-call budget and row cap as bounded-progress monitors; watchdog with solo confirmation. Workload: grammar-generated statements, token/byte mutants, hostile corpus, over 9 store families, both modes; every error rendered after BindQuery with 3 paddings",
+         "'Loops forever' is restated as bounded progress (call budget, row cap, 30 s watchdog). Inputs up to a few KB.",
+         "runtime monitoring: crash/hang/budget monitors over generated, mutated and hostile inputs"),
+ "C07": ("exploration", "5 C07", "reference-comparator monitor: ordered rows must be a multiset-permutation of the same statement without ORDER BY and adjacent rows non-decreasing under an independent comparator chosen by declared field type; lone `order by key asc` must leave the natural order; plain and aggregate statements, 1..3 keys, all asc/desc/implicit combinations, both modes",
+         "Comparator by declared type (text byte-wise, numbers numeric incl. numeric text, false<true). JSON-member keys left to C06.",
+         "runtime monitoring: independent comparator + permutation oracle"),
+ "C09": ("exploration", "5 C09", "reference-fold monitor: the aggregate statement's rows vs an independent fold (count/sum/min/max/avg/group_concat/json_arrayagg, arithmetic around them) over the rows of the corresponding plain select; group identity by value tuples in first-appearance order; stores with colliding concatenations; zero-row and no-GROUP-BY cases; both modes",
+         "Per-row values come from the engine's own plain select (property's observe_at). quantile excluded (approximate).",
+         "runtime monitoring: independent aggregate fold over the engine's per-row values"),
+ "C10": ("exploration", "5 C10", "reference re-implementation monitor: each scalar function and list/JSON indexing evaluated by refeval from its README description; exhaustive over unary templates x a text pool with constant and row-dependent arguments in both modes; sampled list constructors, distances (incl. unequal lengths must fail), JSON navigation, row-dependent separators",
+         "Arguments whose reading the docs leave open are not judged. Float results compared with relative tolerance 1e-12; decimal text read to the nearest double.",
+         "runtime monitoring: reference re-implementation over exhaustive argument pools"),
+ "C14": ("exploration", "5 C14", "typed-grammar monitor: well-typed generated statements must be accepted and execute without error in both modes; single-fault mutants (operand types, non-Boolean WHERE/!, forbidden key/value, unknown function, arity +-1) at 11 syntactic positions must make BuildPlan fail with an EMPTY storage event log",
+         "Typing table from README/spec. Function argument types are not part of the property. Data-dependent failures excluded by construction.",
+         "runtime monitoring: accept/reject oracle with zero-call storage-log grammar"),
+ "C15": ("exploration", "5 C15", "structural AST monitor: the generator owns the tree; Parser.Parse's AST is compared structurally with it for every flat operator sequence up to length 3 (quick) / 4 (thorough) over 18 operator spellings (exhaustive) and for random trees under minimal/random/full parenthesisation and random case, in every expression slot; then the canonical String() is re-parsed and must give the same tree and the same rendering",
+         "Documented precedence table; literals without quote characters; & vs and spelling ignored.",
+         "runtime monitoring: structural comparison against a reference precedence climber, print/re-parse fixpoint"),
 }
 PENDING = {}
 ALL = ["C%02d" % i for i in range(1, 20)]
